@@ -5,22 +5,34 @@
 (* IdealSort: a stable sort of the rows by key, ascending; reverse = the   *)
 (* exact reverse of that sequence.                                         *)
 (*                                                                         *)
-(* ImplSort: every row gets the STRING  render(key) \o hex8(row number)    *)
-(* and the rows come out in lexicographic order of that string (a KVFile). *)
+(* ImplSort: every row gets a STRING built from render(key) and the 8 hex  *)
+(* digits of its row number, and the rows come out in lexicographic order  *)
+(* of that string (a KVFile).  Three designs of that string are modelled:  *)
+(*   "concat"  render(key) \o hex8(n)            - the pinned code; refuted *)
+(*             by TLC when one key is a proper prefix of another           *)
+(*   "nulsep"  render(key) \o NUL \o hex8(n)     - the obvious repair;      *)
+(*             refuted by TLC when a key itself contains NUL               *)
+(*   "escsep"  esc(render(key)) \o NUL NUL \o hex8(n), esc = NUL -> NUL SOH *)
+(*             - the repaired code (fix: commit); TextDesignOK holds       *)
 (* Text keys are rendered as they are; numeric keys through an order-      *)
 (* preserving fixed-width encoding of their IEEE-754 bits (sign bit        *)
-(* flipped, all bits flipped for negative values).                         *)
+(* flipped, all bits flipped for negative values; ZeroFix: a zero of       *)
+(* either sign is encoded as +0.0 - the pinned code took -0.0 as positive  *)
+(* because -0.0 < 0 is false).                                             *)
 (*                                                                         *)
-(* Text: a key is a sequence over the abstract alphabet 1..6 standing for  *)
-(* a character below "0", "0", "9", "a", "f" and a character above "f" -   *)
-(* the row-number suffix is made of "0".."9","a".."f", so these classes    *)
-(* are the ones that matter.  Row numbers are 0-based, 8 hex digits.       *)
+(* Text: a key is a sequence over the abstract alphabet 1..8 standing for  *)
+(* a character below "0", "0", "9", "a", "f", a character above "f", NUL   *)
+(* and SOH (U+0001) - the row-number suffix is made of "0".."9","a".."f"   *)
+(* and the separator of NUL/SOH, so these classes are the ones that        *)
+(* matter.  Row numbers are 0-based, 8 hex digits.                         *)
 (* Numbers: a miniature IEEE format <<sign, e1, e0, m1, m0>> with          *)
 (* denormals and two zeros.                                                *)
 (***************************************************************************)
 EXTENDS Naturals, Integers, Sequences, FiniteSets, TLC, SequencesExt, Json
 
-CONSTANTS MaxRows, MaxKeyLen, Alphabet
+CONSTANTS MaxRows, MaxKeyLen, Alphabet,
+          Design,      \* "concat" | "nulsep" | "escsep"
+          ZeroFix      \* TRUE: zeros of either sign are encoded alike
 
 \* ---------- lexicographic order on sequences of naturals ----------
 RECURSIVE LexLess(_, _)
@@ -33,10 +45,15 @@ IsProperPrefix(a, b) == Len(a) < Len(b) /\ SubSeq(b, 1, Len(a)) = a
 \* ---------- text keys ----------
 \* hex digit d (0..15) as an abstract character: "0" = 2, "1".."9" between "0" and "9" ... we only need ORDER:
 \* map digits to a scale that interleaves with the alphabet: below0=10, "0"=20, "1".."8"=21..28, "9"=29, "a"=40, "b".."e"=41..44, "f"=45, above=60
-CharCode(c) == CASE c = 1 -> 10 [] c = 2 -> 20 [] c = 3 -> 29 [] c = 4 -> 40 [] c = 5 -> 45 [] c = 6 -> 60
+CharCode(c) == CASE c = 1 -> 10 [] c = 2 -> 20 [] c = 3 -> 29 [] c = 4 -> 40 [] c = 5 -> 45 [] c = 6 -> 60 [] c = 7 -> 0 [] c = 8 -> 1
 HexCode(d) == IF d < 10 THEN 20 + d ELSE 30 + d            \* 10 -> 40 ("a") ... 15 -> 45 ("f")
 Hex8(n) == <<HexCode(0), HexCode(0), HexCode(0), HexCode(0), HexCode(0), HexCode(0), HexCode(n \div 16), HexCode(n % 16)>>
-KeyString(key, rownum) == [i \in 1..Len(key) |-> CharCode(key[i])] \o Hex8(rownum)
+Codes(key) == [i \in 1..Len(key) |-> CharCode(key[i])]
+RECURSIVE Esc(_)
+Esc(cs) == IF cs = <<>> THEN <<>> ELSE (IF Head(cs) = 0 THEN <<0, 1>> ELSE <<Head(cs)>>) \o Esc(Tail(cs))
+KeyString(key, rownum) == CASE Design = "concat" -> Codes(key) \o Hex8(rownum)
+                            [] Design = "nulsep" -> Codes(key) \o <<0>> \o Hex8(rownum)
+                            [] Design = "escsep" -> Esc(Codes(key)) \o <<0, 0>> \o Hex8(rownum)
 TextLess(a, b) == LexLess([i \in 1..Len(a) |-> CharCode(a[i])], [i \in 1..Len(b) |-> CharCode(b[i])])
 
 Keys == UNION {[1..n -> Alphabet] : n \in 0..MaxKeyLen}
@@ -70,8 +87,9 @@ Mag(b) == LET e == 2 * b[2] + b[3]  m == 2 * b[4] + b[5] IN IF e = 0 THEN m * 2 
 Val(b) == IF b[1] = 1 THEN 0 - Mag(b) ELSE Mag(b)
 Flip(x) == 1 - x
 \* the code: invert the sign bit; if value < 0 invert all the other bits too  (-0.0 < 0 is FALSE!)
-Encode(b) == IF Val(b) < 0 THEN <<Flip(b[1]), Flip(b[2]), Flip(b[3]), Flip(b[4]), Flip(b[5])>>
+EncodeBits(b) == IF Val(b) < 0 THEN <<Flip(b[1]), Flip(b[2]), Flip(b[3]), Flip(b[4]), Flip(b[5])>>
                            ELSE <<Flip(b[1]), b[2], b[3], b[4], b[5]>>
+Encode(b) == IF ZeroFix /\ Mag(b) = 0 THEN EncodeBits(<<0, 0, 0, 0, 0>>) ELSE EncodeBits(b)
 \* what an order-preserving encoding has to do
 NumOrderOK(a, b) == (Val(a) < Val(b)) => LexLess(Encode(a), Encode(b))
 NumEqualOK(a, b) == (Val(a) = Val(b)) => Encode(a) = Encode(b)          \* fails exactly for +0 / -0
